@@ -264,6 +264,19 @@ func init() {
 			return Result{}, fmt.Errorf("exclusionHandler: traversal of the base without excluded edge not found")
 		}
 
+		// executeQueryJob: is the read skipped when buildUserFilter yields an empty filter (typed-wildcard subject)?
+		eqj := findFunc(fW, "ReverseExpandQuery", "executeQueryJob")
+		if eqj == nil {
+			return Result{}, fmt.Errorf("executeQueryJob not found")
+		}
+		skipsEmptyFilter := false
+		for _, st := range eqj.Body.List {
+			if is, ok := st.(*ast.IfStmt); ok && src(fsetW, is.Cond) == "len(userFilter) == 0" &&
+				strings.Contains(src(fsetW, is.Body), "return nil, nil") {
+				skipsEmptyFilter = true
+			}
+		}
+
 		// ---- list_objects.go ----
 		fsetL, fL, err := parseFile(repo, "pkg/server/commands/list_objects.go")
 		if err != nil {
@@ -375,6 +388,8 @@ func init() {
 		sb.WriteString("def exclusionNoExcludedEdgeChan : String := " + leanStr(noExcludedChan) + "\n")
 		sb.WriteString("/-- … is run by this receiver (a shallow clone has a fresh candidateObjectsMap) -/\n")
 		sb.WriteString("def exclusionNoExcludedEdgeCall : String := " + leanStr(noExcludedCall) + "\n")
+		sb.WriteString("/-- weighted engine: executeQueryJob issues no read for an empty user filter (fix of finding L6) -/\n")
+		sb.WriteString("def weightedSkipsEmptyUserFilter : Bool := " + b(skipsEmptyFilter) + "\n")
 		sb.WriteString("def flagOptimizations : String := " + leanStr(flagOpt) + "\n")
 		sb.WriteString("def flagPipeline : String := " + leanStr(flagPipe) + "\n")
 		sb.WriteString("\nend OpenFGAVerif.Gen.ListObjects\n")
